@@ -86,10 +86,13 @@ Theorem C08_to_string_pub_eq_spec : forall E (X : sxpub E), xpub_to_string (pmod
 Proof. exact to_string_pub_eq_spec. Qed.
 Print Assumptions C08_to_string_pub_eq_spec.
 
+(* (the last premise: a key at depth 0 is a master key, its index and parent fingerprint are zero.  `new` can build a
+   depth-0 value with other fields; its string is then refused by design, see C08_master_fields_example) *)
 Theorem C08_xprv_roundtrip :
   forall E x,
     in_scalar (xs_key x) = true /\ xs_comp x = true /\ xs_pub x = pub_of_priv E (xs_key x) true /\
-    length (xs_cc x) = 32%nat /\ length (xs_fp x) = 4%nat /\ (xs_depth x < 256)%N /\ (xs_index x < 2 ^ 32)%N ->
+    length (xs_cc x) = 32%nat /\ length (xs_fp x) = 4%nat /\ (xs_depth x < 256)%N /\ (xs_index x < 2 ^ 32)%N /\
+    (xs_depth x = 0%N -> xs_index x = 0%N /\ xs_fp x = zeros 4) ->
     xprv_from_string E (xprv_to_string x) = Ok x.
 Proof. exact xprv_roundtrip. Qed.
 Print Assumptions C08_xprv_roundtrip.
@@ -97,7 +100,8 @@ Print Assumptions C08_xprv_roundtrip.
 Theorem C08_xpub_roundtrip :
   forall E x,
     length (xp_pub x) = 33%nat /\ ec_dec E (xp_pub x) <> None /\
-    length (xp_cc x) = 32%nat /\ length (xp_fp x) = 4%nat /\ (xp_depth x < 256)%N /\ (xp_index x < 2 ^ 32)%N ->
+    length (xp_cc x) = 32%nat /\ length (xp_fp x) = 4%nat /\ (xp_depth x < 256)%N /\ (xp_index x < 2 ^ 32)%N /\
+    (xp_depth x = 0%N -> xp_index x = 0%N /\ xp_fp x = zeros 4) ->
     xpub_from_string E (xpub_to_string x) = Ok x.
 Proof. exact xpub_roundtrip. Qed.
 Print Assumptions C08_xpub_roundtrip.
@@ -181,3 +185,15 @@ Example C08_corrupt_example :
   | None => False
   end.
 Proof. vm_compute. split; [reflexivity|discriminate]. Qed.
+
+(* since 7aed395 (BIP32 test vector 5): a depth-0 key with a non-zero index or parent fingerprint is refused by the
+   readers, so a value built that way with `new` does not survive key -> string -> key *)
+Example C08_master_fields_example :
+  let x := xprv_new ec_toy 5 true (repeat x07 32) 0 1 None in
+  let y := xprv_new ec_toy 5 true (repeat x07 32) 0 0 (Some [x00; x00; x00; x01]) in
+  let z := xprv_new ec_toy 5 true (repeat x07 32) 0 0 None in
+  xprv_from_string ec_toy (xprv_to_string x) = Err /\ xprv_from_string ec_toy (xprv_to_string y) = Err /\
+  xprv_from_string ec_toy (xprv_to_string z) = Ok z /\
+  xpub_from_string ec_toy (xpub_to_string (xpub_from_xprv x)) = Err /\
+  xpub_from_string ec_toy (xpub_to_string (xpub_from_xprv z)) = Ok (xpub_from_xprv z).
+Proof. cbv zeta. repeat split; vm_compute; reflexivity. Qed.
